@@ -167,12 +167,32 @@ Section LfudaBridge.
     apply mem_remove_nat_other; auto.
   Qed.
 
+  (* The loop of do_dynamic_age.  What the source carries from one round to the next besides the state and the
+     counter is not looked at: either (aged, da_start, da_last) with da_start re-read from begin() at the end of every
+     round, or (aged, da_last) with da_start a local of the round read from begin() at its top (the test of the head
+     may then sit in a local lambda, which the translator places where it is called).  In both forms the invariant is
+     "da_start is begin() of the current list", and the round is the round of the literal machine. *)
+  Ltac age_round IH n :=
+    match goal with
+    | |- req (bind (whileB _ _ _ (?S1, ?A1, _, _)) _) (dl_age_loop _ ?S2 _ _ ?A2) =>
+        let P := fresh "P" in let E := fresh "E" in
+        pose proof (IH S2 A2 (It n)) as P; assert (E : S1 = S2) by rec_eq; samen A1 A2; rewrite E; proj; exact P
+    | |- req (bind (whileB _ _ _ (?S1, ?A1, _)) _) (dl_age_loop _ ?S2 _ _ ?A2) =>
+        let P := fresh "P" in let E := fresh "E" in
+        pose proof (IH S2 A2 (It n)) as P; assert (E : S1 = S2) by rec_eq; samen A1 A2; rewrite E; proj; exact P
+    end.
+
   Lemma g_do_dynamic_age_ok (s : lfdl K V) now : req (g_do_dynamic_age s now) (dl_dynamic_age s now).
   Proof.
     unfold g_do_dynamic_age, dl_dynamic_age.
-    match goal with |- req (bind (whileB _ ?C ?B _) ?F) _ =>
+    match goal with
+    | |- req (bind (whileB _ ?C ?B (_, _, _, _)) ?F) _ =>
       assert (G : forall fuel (s : lfdl K V) aged da_last,
-                 req (bind (whileB fuel C B (s, aged, l_begin (dl_list s), da_last)) F) (dl_age_loop fuel s da_last now aged)) end.
+                 req (bind (whileB fuel C B (s, aged, l_begin (dl_list s), da_last)) F) (dl_age_loop fuel s da_last now aged))
+    | |- req (bind (whileB _ ?C ?B (_, _, _)) ?F) _ =>
+      assert (G : forall fuel (s : lfdl K V) aged da_last,
+                 req (bind (whileB fuel C B (s, aged, da_last)) F) (dl_age_loop fuel s da_last now aged))
+    end.
     { clear s. induction fuel as [|fuel IH]; intros s aged da_last; [simpl; auto|].
       cbn [whileB dl_age_loop]. 
       destruct (iter_eqb (l_begin (dl_list s)) (dl_end s)) eqn:Q; cbn [negb bind]; [simpl; auto|].
@@ -191,16 +211,12 @@ Section LfudaBridge.
       - cbn [l_deref]. rewrite M. vnorm N L.
         destruct (mm_deref (dl_mm s) (dc_lfu e)) as [c|]; [|simpl; auto]. vnorm N L.
         destruct (mm_erase (dl_mm s) (dc_lfu e)) as [m1|]; [|simpl; auto]. cbn [it_node]. vnorm N L.
-        match goal with |- req (bind (whileB _ _ _ (?S1, ?A1, _, _)) _) (dl_age_loop _ ?S2 _ _ ?A2) =>
-          pose proof (IH S2 A2 (It n)) as P; assert (E : S1 = S2) by rec_eq; samen A1 A2 end.
-        rewrite E. proj. exact P.
+        age_round IH n.
       - destruct (l_splice (dl_list s) da_last (It n)) as [l|] eqn:Sp; [|simpl; auto]. red1.
         cbn [l_deref]. rewrite (l_splice_mem _ _ _ _ n Sp), M. vnorm N L.
         destruct (mm_deref (dl_mm s) (dc_lfu e)) as [c|]; [|simpl; auto]. vnorm N L.
         destruct (mm_erase (dl_mm s) (dc_lfu e)) as [m1|]; [|simpl; auto]. cbn [it_node]. vnorm N L.
-        match goal with |- req (bind (whileB _ _ _ (?S1, ?A1, _, _)) _) (dl_age_loop _ ?S2 _ _ ?A2) =>
-          pose proof (IH S2 A2 (It n)) as P; assert (E : S1 = S2) by rec_eq; samen A1 A2 end.
-        rewrite E. proj. exact P. }
+        age_round IH n. }
     apply G.
   Qed.
 
